@@ -2,7 +2,7 @@
 Tie C: shared LedgerCore harness, profile c22 (asset create / reconfigure / destroy, opt-in, transfer, clawback, freeze,
 close-out among 6 accounts), vs Model.LedgerCore; monitor on the implementation's outputs alone, after EVERY group:
 per existing asset Σ holdings = total and exactly its creator has the params; holdings of a destroyed asset are all 0;
-the amount of a holding that stays frozen changes only under a clawback or a close-out to the creator; holdings appear only by
+the amount of a holding that stays frozen changes only under a clawback or a close-out to the creator; an accepted non-clawback transfer of a positive amount never leaves or enters a frozen holding (whatever its close-to) and needs both parties opted in; holdings appear only by
 opt-in / creation and disappear only by close-out / destroy; the TotalAssets / TotalAssetParams counters equal the number of
 holdings / params of the account."""
 import common, lcore
@@ -71,6 +71,22 @@ def monitor(case):
                 close_cr = any(int(t[11]) != 0 and cr is not None and t[11] == cr and (int(t[1]) == w or str(w) == cr) for t in axf)
                 if not (clawback or close_cr):
                     return idx, "the frozen holding of asset %d in account %d changed from %s to %s without clawback or close-out to the creator" % (a, w, hp[0], hc[0])
+        # the holder rule per transaction: a non-clawback transfer of a positive amount never leaves or enters a frozen holding,
+        # whatever its close-to; decided when no other member of the group touches the asset (then the dump before the group is
+        # the state the transaction saw)
+        for ti, t in enumerate(g):
+            if t[0] != "axfer" or int(t[8]) == 0 or int(t[9]) != 0:
+                continue
+            a = int(t[7])
+            if any(j != ti and u[0] in ("axfer", "afrz", "acfg") and (int(u[7]) == a or (u[0] == "acfg" and int(u[7]) == 0)) for j, u in enumerate(g)):
+                continue
+            hs, hr = prev.hold.get((a, int(t[1]))), prev.hold.get((a, int(t[10])))
+            if hs is not None and hs[1] == "1":
+                return idx, "an accepted non-clawback transfer moved %s units of asset %d out of the frozen holding of account %s (receiver %s, close-to %s)" % (t[8], a, t[1], t[10], t[11])
+            if hr is not None and hr[1] == "1":
+                return idx, "an accepted non-clawback transfer moved %s units of asset %d into the frozen holding of account %s (sender %s, close-to %s)" % (t[8], a, t[10], t[1], t[11])
+            if hs is None or hr is None:
+                return idx, "an accepted transfer of %s units of asset %d between accounts %s and %s of which one had not opted in" % (t[8], a, t[1], t[10])
         for a in set(prev.creator) - set(cur.creator):
             if not any(t[0] == "acfg" and int(t[7]) == a for t in g):
                 return idx, "asset %d disappeared without a destroy transaction" % a
@@ -81,7 +97,7 @@ def run(ctx, replay_ops=None):
     lcore.run(ctx, "C22", "c22", "AlgoVerif.Props.C22", monitor,
               rule=("cases as in C18 (all assets are created by transactions; default-frozen assets, totals 0 .. 2^64−1); profile c22 = 50% asset transfers (opt-in, transfers of 0 / 1 / whole / "
                     "whole+1 / 2^64−1 between holders and to non-holders, clawback by the clawback address or by others, close-out to creator / other holder / self / non-holder), 22% asset config "
-                    "(create with random manager/reserve/freeze/clawback incl. zero, reconfigure, destroy by manager or not, with holdings outstanding or not), 14% freeze; unknown and destroyed asset ids; a directed 'written earlier in this block, then written again by a group that FAILS' stream (18% of groups + forced after an asset created in the block): random orders of {asset reconfigure by the manager, transfer / freeze / clawback rewriting the creator's holding, payments and keyregs of accounts touched earlier} x {overspending or dead member at any position, wrong group hash, fee shortfall, none} x {asset created earlier in this block, holding touched earlier in this block, untouched} — parent/child record aliasing shows only there; "
+                    "(create with random manager/reserve/freeze/clawback incl. zero, reconfigure, destroy by manager or not, with holdings outstanding or not), 14% freeze; unknown and destroyed asset ids; a directed 'frozen + close-to' stream of single-transaction groups (16% of c22 groups, 3% elsewhere, plus a step of the asset life-cycle script): for a frozen holder H a transfer H→R of {0, 1, part, all, all+1} with close-to ∈ {creator, other holder, H, none}, sent by H or by the clawback address, to a frozen / unfrozen / not-opted-in receiver, the creator or H — legitimate (zero amount + close to creator, clawback) and forbidden shapes; a directed 'written earlier in this block, then written again by a group that FAILS' stream (18% of groups + forced after an asset created in the block): random orders of {asset reconfigure by the manager, transfer / freeze / clawback rewriting the creator's holding, payments and keyregs of accounts touched earlier} x {overspending or dead member at any position, wrong group hash, fee shortfall, none} x {asset created earlier in this block, holding touched earlier in this block, untouched} — parent/child record aliasing shows only there; "
                     "evaluations = groups tried; distinct = distinct non-empty group op lines"),
               replay_ops=replay_ops,
               extra_assumptions=["asset names, unit names, URLs and metadata hashes are always empty; MaxAssetsPerAccount = 0 (no limit) in the protocols exercised, the limit branch is modelled but only reached by the model",
